@@ -114,9 +114,10 @@ def analyse(prop_id: str, repo: str, tier: str = "quick", prog: Program = None, 
     try:
         mod.run(ctx)
         ctx.check_floors()
-    except AnalysisError as e:
+    except Exception as e:
         # obligations already decided stand on their own: a violation that was
-        # established before a later rule lost its anchor is still reported
+        # established before a later rule lost its anchor (or crashed on the
+        # changed construct) is still reported
         listed = {f["key"] for f in load_known().get("findings", []) if f["property"] == prop_id}
         if any(not o.ok and o.key not in listed for o in ctx.obs):
             ctx.note(f"analysis stopped early after a violation was established: {e}")
